@@ -35,6 +35,10 @@ class HelpResolver(DefaultResolver):
         config.enable_lenient_args_parsing()
 
         try:
+            # The arguments may have been parsed (and refused) already while the
+            # command was resolved, before lenient parsing was enabled
+            result = ResolveResult(result.command, result.raw_args)
+
             return super(HelpResolver, self).create_resolved_command(result)
         finally:
             if not was_lenient:
